@@ -301,6 +301,28 @@ def ops_for(st, bd, level):
                     check_valid(m1, kind, bad, hanging=False, unused_ok=True)
                     out.outcome(('join-unused', len(A), len(B)))
                 ops.append((f'keep-all-vertices({list(A)})+keep-all-vertices({list(B)})', thunk_u, j_join_u))
+    # ---- join in a small length unit: the library rounds to 8 decimals by design, so joined coordinates are right to 5e-9
+    if not cheap and nt >= 2 and nt <= 8:
+        def thunk_s(m):
+            sc = m.scaled(2.0 ** -7)
+            A_ = np.arange(0, nt, 2)
+            B_ = np.arange(1, nt, 2)
+            return sc.restrict(A_) + sc.restrict(B_), sc, (A_, B_)
+
+        def j_small(m0, res, bad, out):
+            m1, sc, (A_, B_) = res
+            nn_ = REF[kind]['nn']
+            want = [np.sort(sc.p[:, sc.t[:nn_, c]], axis=1) for c in list(A_) + list(B_)]
+            got = [np.sort(m1.p[:, m1.t[:nn_, c]], axis=1) for c in range(m1.t.shape[1])]
+            if len(got) != len(want):
+                bad('join-cells', f"{len(got)} cells after joining the two halves of the mesh scaled by 2^-7")
+                return
+            err = max(np.abs(np.sort(g.T, axis=0) - np.sort(w.T, axis=0)).max() for g, w in zip(got, want))
+            if err > 6e-9:
+                bad('join-coordinates', f"joining two halves of the mesh scaled by 2^-7 moves vertices by {err:.2e} (more than the "
+                    f"5e-9 of rounding to 8 decimals)")
+            out.outcome(('join-small', nt))
+        ops.append(('scaled(2^-7): restrict(even) + restrict(odd)', thunk_s, j_small))
     # ---- join with the reflection in the plane x0 = min x0 (shared vertices carry +0.0 on one side and -0.0 on the other)
     if not cheap and nt <= 8:
         def thunk_r(m):
@@ -371,6 +393,26 @@ def ops_for(st, bd, level):
         return judge
     if kind == 'quad':
         ops.append(('to_meshtri()', lambda m: m.to_meshtri(), j_split('tri', 2)))
+        # only one kind of tag present (named subdomains without named boundaries, and the other way round)
+        def only_subdomains(m):
+            return type(m)(m.p.copy(), m.t.copy()).with_subdomains({k: np.array(v) for k, v in (m.subdomains or {}).items()})
+
+        def only_boundaries(m):
+            from ..meshspace import _copy_tag
+            return type(m)(m.p.copy(), m.t.copy()).with_boundaries({k: _copy_tag(v) for k, v in (m.boundaries or {}).items()})
+        for tl, strip in (('subdomains only', only_subdomains), ('boundaries only', only_boundaries)):
+            for style in (None, 'x'):
+                def thunk_t(m, strip=strip, style=style):
+                    ms_ = strip(m)
+                    return (ms_.to_meshtri() if style is None else ms_.to_meshtri(style='x')), ms_
+
+                def j_only(m0, res, bad, out, tl=tl, nchild=(2 if style is None else 4)):
+                    m1, ms_ = res
+                    j_split('tri', nchild)(ms_, m1, bad, out)
+                    for nm_, a, b_ in (('subdomains', ms_.subdomains, m1.subdomains), ('boundaries', ms_.boundaries, m1.boundaries)):
+                        if a and not b_:
+                            bad('split-tags-dropped', f"to_meshtri on a mesh with {tl}: the named {nm_} are gone")
+                ops.append((f"to_meshtri({'' if style is None else 'style=x'}) with {tl}", thunk_t, j_only))
         ops.append(("to_meshtri(style='x')", lambda m: m.to_meshtri(style='x'), j_split('tri', 4)))
         if not cheap:
             ops.append(('to_meshtri(x=..)', lambda m: m.to_meshtri(x=np.arange(m.t.shape[1], dtype=float)),
